@@ -54,10 +54,8 @@ def firstBad : List Res → Bool
 def resErrors (rs : List Res) : List DErr := rs.filterMap fun | .error e => some e | .ok _ => none
 def resValues (rs : List Res) : List AVP := rs.filterMap fun | .ok a => some a | .error _ => none
 
-/-- `ControlMessage::try_read` -/
-def decodeControl (w : UInt16) (o : Opts) : M ρ (List DErr) Msg := do
-  if o.unused && isPrioritized w then fail [.forbiddenControlMessagePriority] else
-  if o.unused && hasOffset w then fail [.forbiddenControlMessageOffset] else
+/-- `ControlMessage::try_read` after the unused-field checks -/
+def decodeControlCore (w : UInt16) : M ρ (List DErr) Msg := do
   if !hasLength w then fail [.controlMessageWithoutLength] else
   if !hasNsNr w then fail [.controlMessageWithoutNsNr] else
   if (← len) < 10 then fail [.incompleteControlMessageHeader] else
@@ -75,6 +73,12 @@ def decodeControl (w : UInt16) (o : Opts) : M ρ (List DErr) Msg := do
     if firstBad rs then fail [.controlMessageTypeNotFirst] else
     if (resErrors rs) ≠ [] then fail (resErrors rs) else
     pure (.control { length := length, tunnelId := tid, sessionId := sid, ns := ns, nr := nr, avps := resValues rs })
+
+/-- `ControlMessage::try_read`: the unused-field checks (gated by the option), then the rest -/
+def decodeControl (w : UInt16) (o : Opts) : M ρ (List DErr) Msg := do
+  if o.unused && isPrioritized w then fail [.forbiddenControlMessagePriority] else
+  if o.unused && hasOffset w then fail [.forbiddenControlMessageOffset] else
+  decodeControlCore w
 
 /-- the fixed fields of a data message, as far as the flag word announces them -/
 structure DataHdr where
